@@ -1,0 +1,12 @@
+//go:build verif
+
+// Machine-checked contracts (Gobra-style //@ comments) for the verification harness in /verif.
+// This file contains no code; it is compiled only under the build tag "verif".
+package p2p
+
+// a panic while handling bytes received from a peer is confined to that connection:
+// the receive and send goroutines recover and stop the connection with an error
+//@ defers (*MConnection).recvRoutine: _recover
+//@   props C08 C20
+//@ defers (*MConnection).sendRoutine: _recover
+//@   props C08 C20
